@@ -28,6 +28,6 @@ for f in sorted(glob.glob('/tmp/confirm5/C*.json')):
          'patched_demo_tail':d.get('patched_demo_tail','')[-400:]},
       'caught_before_round5_strengthening':{'detected':before.get(mid,(None,''))[0],'summary':before.get(mid,(None,''))[1]},
       'checks_run_against_it':{p:{'detected':after.get(mid,(None,''))[0],'summary':after.get(mid,(None,''))[1]}}}
-    if mid=='C11-r5m3': meta['note']='NOT caught, by design: manifests only for [flags] expressions whose intermediate results leave the base type (see C15-r3m2 and DESIGN sections 8, 13, 14)'
+    if mid=='C15-r5m3': meta['note']='NOT caught, by design: int32 [flags] expressions evaluated in 64 bits differ only when an intermediate result leaves the base type (see C15-r3m2, C11-r4m3 and DESIGN sections 8, 13, 14)'
     json.dump(meta,open(os.path.join(dst,'meta.json'),'w'),indent=1)
 print(len(glob.glob(OUT+'/C*-r5m*')))
